@@ -4995,7 +4995,7 @@ impl Command {
 
     pub(crate) fn unroll_arg_requires<F>(&self, func: F, arg: &Id) -> Vec<Id>
     where
-        F: Fn(&(ArgPredicate, Id)) -> Option<Id>,
+        F: Fn(&Id, &(ArgPredicate, Id)) -> Option<Id>,
     {
         let mut processed = vec![];
         let mut r_vec = vec![arg];
@@ -5009,7 +5009,7 @@ impl Command {
             processed.push(a);
 
             if let Some(arg) = self.find(a) {
-                for r in arg.requires.iter().filter_map(&func) {
+                for r in arg.requires.iter().filter_map(|r| func(a, r)) {
                     if let Some(req) = self.find(&r) {
                         if !req.requires.is_empty() {
                             r_vec.push(req.get_id());
